@@ -16,3 +16,4 @@ import Gleece.Properties.Serve
 #print axioms Gleece.Serve.all_denied_refused
 #print axioms Gleece.Serve.approvesAll_deny
 #print axioms Gleece.Reduce.reduce_is_effective
+#print axioms Gleece.Serve.serve_refused_iff_exec_gate
